@@ -522,6 +522,7 @@ type Contract struct {
 	Safety   bool
 	Inline   bool // callers inline the body instead of using the contract
 	Opaque   bool // callers see an uninterpreted (pure, deterministic) function of the arguments
+	ByRef    bool // opaque: pointer arguments are used by identity (their pointees are immutable)
 	Atomic   string
 	Implements []string
 	Notes    []string
@@ -864,8 +865,8 @@ func ParseSpecFile(path, pkg string) (*SpecFile, error) {
 				cur.Inline = true
 			case "opaque":
 				cur.Opaque = true
-				if rest != "" {
-					cur.Notes = append(cur.Notes, rest)
+				if strings.HasPrefix(rest, "byref") {
+					cur.ByRef = true
 				}
 			case "safety":
 				cur.Safety = rest != "off"
